@@ -185,6 +185,7 @@ class Stream:
         self.h = self.rig.h
         self.lines, self.cases, self.answers = [], [], []
         self.user: dict[tuple[int, int], str] = {}
+        self.extra: list[tuple[int, int]] = []  # functions the application added to the catalogue at run time
         rig = self.rig
         if stage != "disabled":
             rig.h.enable()
@@ -215,6 +216,13 @@ class Stream:
                 self.user_reply_body = fn.encode()
                 return fn
             self.rig.user_outcome[(s, f)] = answer
+        elif outcome == "reply-cat":
+            # the way an application writes it: the secondary's class comes from the handler's own catalogue
+            def answer_cat(h_, m_):
+                fn = h_.stream_function(m_.header.stream, m_.header.function + 1)()
+                self.user_reply_body = fn.encode()
+                return fn
+            self.rig.user_outcome[(s, f)] = answer_cat
         elif outcome == "none":
             self.rig.user_outcome[(s, f)] = lambda h_, m_: None
         else:
@@ -314,7 +322,7 @@ class Stream:
                             f"S{s}F{f}: user callback registered={bool(want_ucb)} called {n_ucb}x; callback present={has_cb} called {n_cb}x",
                             case, f"user {want_ucb}x, any {want_cb}x", f"user {n_ucb}x, any {n_cb}x")
         if not (comm == "WAIT_CRA" and (s, f) in ((1, 13), (1, 14))):
-            self.lines.append(f"secshandle handle {cls} {self.flags} {int(selected)} {comm} {','.join(map(str, waiting)) or '-'} "
+            self.lines.append(f"secshandle handlex {','.join(f'{a}.{b}' for a, b in self.extra) or '-'} {cls} {self.flags} {int(selected)} {comm} {','.join(map(str, waiting)) or '-'} "
                               f"{','.join(f'{a}.{b}' for a, b in sorted(self.user)) or '-'} {oc} {s} {f} {int(bool(w))} {system} {hdr.hex()}")
             self.cases.append(case)
             self.answers.append("ok " + ";".join(canon(fr) for fr in mine))
@@ -370,7 +378,7 @@ class Stream:
                 elif want[1] == (s, 0) and data[0][5] != b"":
                     res.violate("abort-with-body", "SxF0 carries a body", case, "", data[0][5].hex())
                 return
-            if not data and has_cb and outcome is not None and outcome[1] == "raised" and (s, 0) not in CAT_CLS:
+            if not data and has_cb and outcome is not None and outcome[1] == "raised" and (s, 0) not in CAT_CLS and (s, 0) not in self.extra:
                 res.violate("c08-abort-uncatalogued-stream",
                             f"the callback for S{s}F{f} W raised and no reply at all was written (S{s}F0 is not in the catalogue: KeyError inside the except block)",
                             case, want[0], show)
@@ -495,6 +503,38 @@ def drive(role, res, rng, flags, tier, search, replay_cases=None):
                 raise Stuck("own S1F1 not written")
             st.send(*[(1, 2), (1, 3), (99, 1), (1, 0), (1, 1)][k], [0, 1, 1, 0, 1][k], b"", "awaited", system=sysb)
             t.join(gemrig.deadline())
+        # 5b. the application changes the catalogue and the callback table BETWEEN messages: the reply depends on what is
+        #     catalogued and registered at the time of the message (functions first seen while undefined, then added)
+        for stream in (64, 3):
+            klasses = [type(f"UserS{stream:02d}F{fn:02d}", (SecsStreamFunction,), {
+                "_stream": stream, "_function": fn, "_data_format": None, "_to_host": True, "_to_equipment": True,
+                "_has_reply": fn == 1, "_is_reply_required": fn == 1, "_is_multi_block": False}) for fn in (0, 1, 2)]
+            for (fn, w) in ((1, 1), (2, 0), (0, 0), (1, 0)):
+                st.send(stream, fn, w, b"", "before-update")                     # unknown: S9F5 for the W primary, nothing else
+            cat = st.h.settings.streams_functions
+            for k in klasses:
+                if cat.function(k.stream, k.function) is None:                   # politely: only what the catalogue has no class for
+                    cat.update(k)
+                    st.extra.append((k.stream, k.function))
+            st.send(stream, 1, 1, b"", "after-update-no-callback")               # catalogued now, still no callback: S9F5
+            for o in ("reply-cat", "raises", "reply-cat", "none", "reply"):
+                st.set_user(stream, 1, o)
+                for w in (1, 0):
+                    st.send(stream, 1, w, b"", "after-update-" + o)
+            st.set_user(stream, 1, None)
+            st.send(stream, 1, 1, b"", "after-unregister")                       # S9F5 again
+            st.set_user(stream, 1, "reply-cat")
+            st.send(stream, 1, 1, b"", "after-reregister")
+            st.set_user(stream, 1, None)
+        # ... and a function the catalogue already has is replaced by a class of the application
+        repl = type("UserS01F02", (SecsStreamFunction,), {"_stream": 1, "_function": 2, "_data_format": None, "_to_host": True,
+                                                          "_to_equipment": True, "_has_reply": False, "_is_reply_required": False, "_is_multi_block": False})
+        st.h.settings.streams_functions.update(repl)
+        st.set_user(1, 1, "reply-cat")
+        st.send(1, 1, 1, b"", "after-replace")
+        st.set_user(1, 1, None)
+        st.h.settings.streams_functions.update(CAT_CLS[(1, 2)])
+        st.send(1, 1, 1, b"", "after-restore")
         # 6. a long mixed random sequence
         pool = CATALOGUE + uncatalogued_pairs(rng, "quick", False)[:40]
         used = []
